@@ -252,6 +252,13 @@ fn root_list(rng: &mut Rng, i: usize) -> String {
         es.push(format!("{}:{}", hex(&name), id));
     }
     let ver: i64 = match i % 5 { 0 => 2, 1 => i32::MAX as i64, 2 => i32::MIN as i64, 3 => -(rng.below(1000) as i64), _ => rng.below(1000) as i64 };
+    if !es.is_empty() && rng.chance(1, 4) {
+        // lines that are no entries between / around the entries
+        let pool: [&[u8]; 8] = [b"", b"no comma here", b"Name,abc", b"Name,", b"#Sheet,5", b"# a comment", b"x,1,y", b"Name,12x"];
+        let nj = rng.range(1, 3) as usize;
+        let js: Vec<String> = (0..nj).map(|_| { let j = *rng.pick(&pool); if j.is_empty() { "e".to_string() } else { hex(j) } }).collect();
+        return format!("namesj {} {} {}", ver, es.join(","), js.join(","));
+    }
     format!("names {} {}", ver, if es.is_empty() { "-".to_string() } else { es.join(",") })
 }
 
@@ -369,7 +376,11 @@ pub fn generate(thorough: bool, seed: u64, out: &mut dyn Write) {
         for i in 0..n {
             let k = 1 + mrng.below(3);
             let mseed = mrng.next() >> 1;
-            writeln!(out, "mut {} {} {}", mseed, k, root_list(&mut mrng, i)).unwrap();
+            let mut l = root_list(&mut mrng, i);
+            while l.starts_with("namesj ") {
+                l = root_list(&mut mrng, i);
+            }
+            writeln!(out, "mut {} {} {}", mseed, k, l).unwrap();
         }
     }
 
